@@ -2,6 +2,7 @@ import JSight.Basic
 import JSight.Model.Build
 import JSight.Model.PathBind
 import JSight.Model.SchemaContent
+import JSight.Model.Project
 /-!
 Line-protocol driver of the catalog-construction model (`Model/Build.lean`).
 
@@ -10,6 +11,10 @@ Line-protocol driver of the catalog-construction model (`Model/Build.lean`).
            named = name=hex,name=hex…   unnamed = hex,hex…   body = "n" (none) | "b<hex>"
          | "-"                                                                       closes it
   → ok <skeleton>  |  err <directive id> <message class>
+
+  project <banned kind indices or -> <hex content> <oracle entries…>      (the composed model, `Model/Project.lean`)
+     oracle entry:  s:<cur>:<len> | s:<cur>:e<pos> | e:<cur>:<len> | e:<cur>:e<pos>
+  → ok <skeleton> | err <stage> <class> <index> [<body end>] | fault <kind> | miss <s|e> <cur> | skip include
 -/
 open JSight JSight.Gen JSight.Build
 
@@ -204,8 +209,69 @@ def handleContent (toks : List String) : String :=
     | .error .optionalNotBool => "fault optional"
   | _ => "bad-arg"
 
+
+/-! ### the composed model -/
+
+def parseOracle (entries : List String) : Oracle :=
+  let tab : List (Bool × Nat × LenAns) := entries.filterMap fun e =>
+    match e.splitOn ":" with
+    | [k, cur, ans] =>
+      match cur.toNat? with
+      | none => none
+      | some c =>
+        let a : Option LenAns :=
+          if ans.startsWith "e" then (ans.drop 1).toString.toNat?.map LenAns.err else ans.toNat?.map LenAns.len
+        a.map fun a => (k == "e", c, a)
+    | _ => none
+  let look (isEnum : Bool) (cur : Nat) : LenAns :=
+    match tab.find? (fun (k, c, _) => k == isEnum && c == cur) with
+    | some (_, _, a) => a
+    | none => .miss
+  { schemaLen := look false, enumLen := look true }
+
+def faultName : Fault → String
+  | .popEmpty => "popEmpty" | .indexOOR => "indexOOR" | .sliceOOR => "sliceOOR" | .nilDeref => "nilDeref"
+  | .fuel => "fuel" | .libFault => "libFault" | .underflow => "underflow"
+
+def showProjectErr : Project.PErr → String
+  | .scan i => "err scan scan " ++ toString i
+  | .fault f => "fault " ++ faultName f
+  | .oracleMiss e c => "miss " ++ (if e then "e" else "s") ++ " " ++ toString c
+  | .includeSeen _ => "skip include"
+  | .unknownDirective i => "err assemble unknownDirective " ++ toString i
+  | .notAllowed i => "err assemble notAllowed " ++ toString i
+  | .noDirective i => "err assemble noDirective " ++ toString i
+  | .param (.alreadyDefined _) i => "err assemble paramDefined " ++ toString i
+  | .param .incorrect i => "err assemble paramIncorrect " ++ toString i
+  | .ctx (.incorrectContext _) i => "err ctx context " ++ toString i
+  | .ctx (.pathMethodInExplicit _) i => "err ctx context " ++ toString i
+  | .ctx .noExplicitToClose i => "err ctx noclose " ++ toString i
+  | .ctx .unclosedAtEOF i => "err ctx unclosed " ++ toString i
+  | .paste (.annotation id) => "err paste annotation " ++ toString id
+  | .paste (.nameMissing id) => "err paste nameMissing " ++ toString id
+  | .paste (.emptyMacro id) => "err paste emptyMacro " ++ toString id
+  | .paste (.duplicate id) => "err paste duplicate " ++ toString id
+  | .paste (.recursion id) => "err paste recursion " ++ toString id
+  | .paste (.notFound id) => "err paste inPaste " ++ toString id
+  | .paste (.inPaste id) => "err paste inPaste " ++ toString id
+  | .paste (.ctx (.incorrectContext id)) => "err paste context " ++ toString id
+  | .paste (.ctx (.pathMethodInExplicit id)) => "err paste context " ++ toString id
+  | .paste (.ctx _) => "err paste context 0"
+  | .paste .fuel => "fault fuel"
+  | .build e i be => "err build " ++ showMsg e.msg ++ " " ++ toString i ++ " " ++ toString be
+
+def handleProject (banned : String) (content : String) (orc : List String) : String :=
+  let bans : List Kind := if banned == "-" then [] else (banned.splitOn ",").filterMap fun s => s.toNat?.bind fun i => Kind.all[i]?
+  match fromHex content with
+  | none => "bad-hex"
+  | some b =>
+    match Project.process b (parseOracle orc) bans with
+    | .ok c => "ok " ++ showCat c
+    | .error e => showProjectErr e
+
 def handle (line : String) : String :=
   match (line.splitOn " ").filter (· ≠ "") with
+  | "project" :: banned :: content :: orc => handleProject banned content orc
   | "content" :: toks => handleContent toks
   | "bind" :: toks => handleBind toks
   | "build" :: banned :: toks =>
